@@ -62,6 +62,7 @@ class StartupRun:
         self.case = case
         self.prog = case["prog"]
         self.trace: list[dict[str, Any]] = []
+        self.raised_exc: dict[int, tuple[BaseException, int]] = {}     # component -> what its method raised
         self.expected_events: list[tuple[Any, ...]] = []
         self.fac_calls: dict[int, int] = {}
         self.classes: dict[int, type] = {}
@@ -279,7 +280,12 @@ class StartupRun:
                     self.log("regTd", i, a["id"])
                 elif k == "fail":
                     self.log("failed", i, a["e"])
-                    raise EXN[a["e"]]()
+                    exc: BaseException = EXN[a["e"]]()
+                    if (i + a["e"]) % 3 == 0:
+                        # what the component fails with is itself a group of one (its own task group's, say)
+                        exc = ExceptionGroup("jobs of the component failed", [exc])
+                    self.raised_exc[i] = (exc, a["e"])
+                    raise exc
         except cancelled:
             self.log("cancelSeen", i)
             raise
@@ -443,6 +449,14 @@ class StartupRun:
                     except ComponentStartError as e:
                         cause = e.__cause__
                         ci = next((n for n, c in enumerate(EXN) if type(cause) is c), 0 if isinstance(cause, ValueError) else 99)
+                        mine = self.raised_exc.get(paths.get(e.path, -1))
+                        if mine is not None:
+                            # the cause is the very exception the component's method raised
+                            if cause is mine[0]:
+                                ci = mine[1]
+                            else:
+                                self.probe_failed(paths.get(e.path, 0), f"the cause of the ComponentStartError is {cause!r}, "
+                                                  f"not the exception {mine[0]!r} that the component raised", "C07")
                         outcome = {"k": "cse", "phase": e.phase, "i": paths.get(e.path, -1), "cls": cls_ids.get(e.component_type, -1), "cause": ci}
                         self.log("raised", outcome)
                     except TimeoutError:
